@@ -307,6 +307,7 @@ fn run_case(plan: &Plan, h: &History, case: usize, origin: &str, sh: &Shared) {
             }
         };
         let mut r = Runner::new(&mut subj, h, plan.mon);
+        r.prop = plan.property;
         r.walk_every = plan.walk_every;
         r.own_only = plan.compare == Compare::TwoRun;
         let out = r.run();
